@@ -74,7 +74,7 @@ def main(tier, replay):
     if os.path.exists(of):
         for l in open(of):
             if l.startswith("# ") and "=" in l:
-                k, v = l[2:].strip().split("=", 1)
+                k, v = l[2:].strip().rsplit("=", 1)
                 hist[k] = int(v)
     vlib.standard_coverage(chk, stats,
         "real PoissonLogLikelihoodWithLinearModelForMeanAndProjData through its public API (compute_objective_function, compute_sub_gradient, "
@@ -124,7 +124,29 @@ def main(tier, replay):
         "computing set_up wrote are read back with read_from_file: = get_subset_sensitivity(s) resp. get_sensitivity() bit for bit, total file = sum of the subset "
         "shares, and a second object that reads them answers everything of (ii) bit for bit like the writer. "
         "KNOWN-CANDIDATE reuse:default-segment-or-TOF-range-...: data of another geometry given to a set-up object without calling the range setters (every run, "
-        "both directions). distinct = distinct op lines.",
+        "both directions). "
+        "SETTERS AFTER set_up WITHOUT A NEW set_up (6 histories per configuration, 12 in the thorough tier; the first one always set_num_subsets(other value)): "
+        "an object is configured (every setter call also made on the model object `Obj`: `sset` lines compare the protected flag already_set_up and the members "
+        "the getters show after EVERY call) and set up (`ssetup`: accepted/refused, flag, members after set_up against `Obj.setUp`); then 1-2 public setters are "
+        "called with a NEW value or with the SAME value — set_num_subsets (other / same / <= 0), set_proj_data_sptr, set_input_data, set_additive_proj_data_sptr "
+        "(new / null / same pointer), set_normalisation_sptr, set_projector_pair_sptr (new object / same pointer), set_max_segment_num_to_process and "
+        "set_max_timing_pos_num_to_process (other / the value set_up derived / -1 / larger than the data), set_zero_seg0_end_planes, set_use_subset_sensitivities, "
+        "set_recompute_sensitivity, set_sensitivity_filename, set_subsensitivity_filenames (new / same / a pattern boost::format cannot use, which includes the empty "
+        "string: the setter throws after resetting the flag), set_subset_sensitivity_sptr, set_frame_num (1 / 2 / 0), set_frame_definitions (equal copy / other), "
+        "set_prior_sptr (null / new prior set up / not set up), parse() of a parameter text with two keys — and WITHOUT set_up every kind of request is made in Rng order: "
+        "compute_objective_function, compute_sub_gradient, ..._plus_sensitivity, accumulate_sub_Hessian_times_input, add_multiplication_with_approximate_sub_Hessian, "
+        "their *_without_penalty forms when a prior is attached, add_subset_sensitivity, the public actual_compute_subset_gradient_without_penalty, "
+        "get_subset_sensitivity, get_sensitivity (`sreq` lines: answered/refused against `Obj.answer`, i.e. against the setter table transcribed from the three "
+        ".cxx files, parse() included — since fix C05-3 it resets the flag; no line only for add_subset_sensitivity / actual_... after a NEW normalisation or "
+        "projector object nobody has set up, whose own checks decide). Oracle: every ANSWERED request that tests already_set_up equals, bit for bit, the answer "
+        "of a FRESH object (own projector pair, own prior) configured with the values the object now has and set up — answered although the fresh set_up is "
+        "refused counts as failure —, and gradient_plus_sensitivity - gradient = get_subset_sensitivity(0) (1e-4 of the magnitudes) on whatever the object "
+        "answers (ORACLE-FAIL, also after parse()); then set_up is called again (`ssetup`) and all requests once more (`sreq`, fresh object). The four public "
+        "members that do not test the flag (get_subset_sensitivity / get_sensitivity, add_subset_sensitivity, actual_compute_subset_gradient_without_penalty) "
+        "are outside the property's quantifier between a setter and the next set_up: their answered/refused pattern is a model line, a stale answer "
+        "(relative 2e-5 against the fresh object) is only counted (`unguarded_answered_stale`, `setters-stale-answer-<request>-after_<setters>`); after the "
+        "final set_up they are compared like the others. "
+        "distinct = distinct op lines.",
         extra=dict(input_histogram=hist, near_threshold_not_compared=NEAR[0], indeterminate_flag_other_value=INDET[0]))
     chk.assumptions += ["re-use histories: a fresh object 'configured identically' has the members of the re-used object (the TOF sensitivity switch, which has no public "
                         "setter and stays on once a set_up switched it on, is copied); twin objects share the normalisation object and the data with the re-used "
@@ -140,6 +162,15 @@ def main(tier, replay):
                         "what the object reports after set_up goes to the `tofrange` model line",
                         "the prior's own value / gradient / Hessian product are taken from QuadraticPrior (C09's subject)",
                         "set_subset_sensitivity_sptr with recompute off and no file names is refused by set_up in every configuration tried (counted, not a property clause)",
+                        "setter histories: pointers, strings and frame definitions enter the model as identities chosen by the harness (same object / equal value = same "
+                        "identity); whether subsensitivity_sptrs[0] is null and whether a sensitivity file can be read is book-keeping of the harness (new object: null; "
+                        "after a successful set_up: not null; no file exists); the balance of the subsets given to `ssetup` is counted independently with a projector "
+                        "pair of its own; a set_up that fails leaves already_set_up as it was (transcribed, Mean.cxx:174-329) but what it leaves in the projectors / "
+                        "cached sensitivities is not modelled and no history makes set_up fail while the flag is on with another target; functions that do not test "
+                        "the flag are not called with members they cannot use (segment / TOF range larger than the data, frame number outside the definitions); "
+                        "TimeFrameDefinitions::operator== (prefix comparison) is exercised only with an equal copy and with definitions that differ in the first frame; "
+                        "priors are constructed with the default constructor (QuadraticPrior(only_2D, factor) leaves GeneralisedPrior::_already_set_up uninitialised); "
+                        "ask_parameters(), the parsing keys other than the two used, the public MPI switches and use_tofsens after set_up are not driven",
                         "MPI (distributed) paths are not built: which projector pair setup_distributable_computation received is ghost state of the model, "
                         "observable on the implementation only through the error branch"]
     if audit:
